@@ -251,8 +251,16 @@ def check(run):
                             problems.append("default timestamp is not the current UTC time")
                         if not (datetime.timedelta(days=365) - datetime.timedelta(seconds=2) <= ex - ts <= datetime.timedelta(days=366) + datetime.timedelta(seconds=2)):
                             problems.append("default expiration is not about one year after the timestamp")
-                    elif not (datetime.timedelta(days=365) - datetime.timedelta(seconds=3) <= ex - t0 <= datetime.timedelta(days=366) + datetime.timedelta(seconds=3)):
-                        problems.append("default expiration is not about one year from now")
+                    else:
+                        # timestamp given, expiration defaulted: "about one year later" may be read from the clock or from the given timestamp
+                        lo, hi = datetime.timedelta(days=365) - datetime.timedelta(seconds=3), datetime.timedelta(days=366) + datetime.timedelta(seconds=3)
+                        from_now = lo <= ex - t0 <= hi
+                        try:
+                            from_ts = lo <= ex - datetime.datetime.strptime(md["timestamp"], FMT) <= hi
+                        except Exception:  # noqa: BLE001 - a timestamp of an unspecified spelling: only the clock reading can be judged
+                            from_ts = False
+                        if not (from_now or from_ts):
+                            problems.append("default expiration is about one year neither from now nor from the given timestamp")
             except Exception as e:  # noqa: BLE001
                 problems.append(f"default dates malformed: {e}")
             supported = md.get("type") in ("root", "key_mgr") if isinstance(md.get("type"), str) else False
